@@ -546,14 +546,26 @@ def rule_list_quantifiers(ctx, kind=None):
 PRODUCERS = r"(AAFramework::grounded_extension|grounded_extension_computer::grounded_extension|maximal_extension_computer::new_for_preferred_semantics|maximal_extension_computer::new_for_ideal_semantics|maximal_range_semantics_solvers::new_maximal_extension_computer|MaximalExtensionComputer::compute_maximal|IdealSemanticsSolver::compute_one_extension_for_cc|ideal_semantics_solver::compute_maximal_with_allowed|SatSolver::solve)$"
 
 
-def _producers_in(prog, b, blocks=None):
+def _producers_in(prog, b, blocks=None, depth=0):
+    """names of the extension-producing calls made in `blocks` of b (None = the whole body), in the closures created there and
+    in the local helper functions called there (two levels)"""
     out = set()
     for s in b.calls():
         if blocks is not None and s.bb not in blocks:
             continue
         c = callee_of(s)
         if callee_matches(c, PRODUCERS):
-            out.add(strip_generics(callee_name(c)).rsplit("::", 1)[-1] if not callee_matches(c, r"new_") else strip_generics(callee_name(c)).rsplit("::", 1)[-1])
+            out.add(strip_generics(callee_name(c)).rsplit("::", 1)[-1])
+            continue
+        t = prog.body_for_callee(c, b) if c and c.get("decl") != "<indirect>" else None
+        if t is not None and t.kind != "closure" and depth < 2 and (t.path.startswith("solvers::") or "<solvers::" in t.path.split(" as ")[0]):
+            out |= _producers_in(prog, t, None, depth + 1)
+    for x in prog.closures_of(b):
+        for ps in b.sites():
+            nd = ps.node
+            if ps.si is not None and nd["k"] == "assign" and nd["rv"]["k"] == "aggregate" and nd["rv"]["agg"].get("kind") == "closure" and nd["rv"]["agg"].get("path") == x.path:
+                if blocks is None or ps.bb in blocks:
+                    out |= _producers_in(prog, x, None, depth)
     return out
 
 
@@ -589,7 +601,7 @@ def rule_completion_semantics(ctx):
             sblocks = set()
             for h, bl in loops:
                 sblocks |= bl
-            want = _producers_in(prog, sib, sblocks) - {"solve"}
+            want = _producers_in(prog, sib, sblocks or None) - {"solve"}
             r.check(got - {"solve"} == want and bool(want), b.id + "|completion", "producers=%s want=%s" % (sorted(got), sorted(want)), "completion uses %s, like compute_one_extension" % sorted(want), "the certificate is completed on the other components with %s, but this solver's extensions are computed with %s: the completed set need not be an extension under the queried semantics" % (sorted(got), sorted(want)), drains[0].loc())
         else:
             r.check(got == {"grounded_extension"}, b.id + "|completion", "producers=%s" % sorted(got), "completion uses grounded extensions (complete)", "a solver without single-extension computation completes its certificate with %s" % sorted(got), drains[0].loc())
